@@ -1,12 +1,12 @@
-reg("C06", "exploration", "reference-model monitor (big-int evaluator R2) over exhaustive operator x operand-kind table + random trees/sequences, panic monitor",
+reg("C06", "exploration", "reference-model monitor (big-int evaluator R2) over exhaustive operator x operand-kind table + random trees/sequences, panic monitor; operand-mutation / repeat-evaluation / symmetry-of-equality / half-way-failure-then-evaluate oracles; Authorizer.Query with fresh literals",
     "Every operator is run on every ordered pair of a 45-value boundary pool (complete in both tiers), plus a 33x33 integer grid and seeded random trees/sequences; each result is compared with an independent math/big evaluator. Held means: no panic, no wrapped value, no type-check miss on any executed evaluation.",
     "Trusts the harness's transcription of the documented operator table (DESIGN appendix A) and Go's regexp; lenient cells (mixed-kind sets, duplicate sets) only require no panic.",
     "DESIGN.md 3/C06")
-reg("C05", "exploration", "reference-model monitor (independent least-fixpoint evaluator R1) over random programs + bounded-exhaustive join scope; race detector in thorough",
+reg("C05", "exploration", "reference-model monitor (independent least-fixpoint evaluator R1) over random programs + bounded-exhaustive join scope; race detector in thorough; the same programs under a tight fact limit and in a clone of the world; regex look-alike programs back to back; boundary arithmetic inside rules",
     "World.Run / QueryRule results are compared, as sets of resolved facts, with a reference fixpoint written with a different algorithm (naive iteration, back-tracking unification); the hand-written join enumerator is additionally run on every body of 1-3 atoms over a small vocabulary against every ordered fact list (complete in thorough, sampled in quick).",
     "Trusts R1/R2 (about 300 lines, written from the property statement); programs in the lenient expression zone are skipped and counted.",
     "DESIGN.md 3/C05")
-reg("C04", "exploration", "reference-model monitor (decision procedure R5 over R1) with perturbation neighbours",
+reg("C04", "exploration", "reference-model monitor (decision procedure R5 over R1) with perturbation neighbours, the same content through parsed text, a saved snapshot and one re-used authorizer; non-boolean filters; block facts vs authorizer rules",
     "The outcome class of Authorize (OK / DENY / NOMATCH / FAIL) is compared with an independent implementation of the specified decision procedure on seeded scenarios and on neighbours that separate the usual inversions; content is entered through builder structs and through parsed text.",
     "Stated fragment only (ground facts, range-restricted rules, error-free or uniformly failing expressions); order-dependent cases give no verdict and are counted.",
     "DESIGN.md 3/C04")
@@ -14,7 +14,7 @@ reg("C07", "exploration", "independent wire decoder (R3) vs the model carried by
     "Every live token of seeded build/append/seal/reload histories is decoded by a hand-written protobuf reader with its own symbol table and compared block for block with what the callers supplied; Unmarshal and re-serialization are compared; unsupported versions re-signed by R3 must be rejected.",
     "Trusts R3's transcription of the schema and default symbols.",
     "DESIGN.md 3/C07")
-reg("C08", "exploration", "model-based history monitor: every live token and built block re-observed after every operation",
+reg("C08", "exploration", "model-based history monitor: every live token and built block re-observed after every operation (three templates: random interleavings, chain-and-fork, builders re-used after Build); trace-free noise before every append of every workload",
     "After each operation of a seeded history every live token is re-snapshotted (print, bytes, reload, ids, panel behaviour) and compared with its creation snapshot; new tokens and built blocks are decoded independently and compared with what their own caller put in.",
     "A built block is appended only to the token its builder was created from. Root and block builders are also used again after Build (fill, build, fill, build).",
     "DESIGN.md 3/C08")
@@ -30,7 +30,7 @@ reg("C01", "fault_enumeration", "mutation catalogue decided by an independent ch
     "Every mutant of the catalogue M1-M13 (plus every single-bit flip and prefix of sampled tokens, and the sample corpus) is presented under four keys; a token the independent verifier rejects must be rejected by Unmarshal/AuthorizerFor, library-made and R3-written valid chains must be accepted.",
     "ed25519 trusted; mutants R3 cannot decode canonically only carry the no-panic obligation.",
     "DESIGN.md 3/C01")
-reg("C10", "exploration", "panic monitor + process-exit journal over isolated workers; hostile schema-valid tokens validly signed by an attacker root",
+reg("C10", "exploration", "panic monitor + process-exit journal over isolated workers; hostile schema-valid tokens validly signed by an attacker root; enumerated set algebra incl. computed empty sets; use-after-timeout monitor in the race build",
     "Every API is driven under recover over tokens from hostile bytes; validly signed adversarial field values reach evaluation; a process death is attributed to its input by the worker journal.",
     "32-byte keys; address space capped.",
     "DESIGN.md 3/C10")
@@ -46,7 +46,7 @@ reg("C12", "exploration", "relational monitor over presentation variants (permut
     "8 presentation variants per scenario and 3 Authorize calls on one authorizer must give the base outcome class and the base derived-fact sets.",
     "Error-free fragment; policies keep their order.",
     "DESIGN.md 3/C12")
-reg("C13", "exploration", "relational monitor: reused authorizer after Reset vs fresh authorizer, over multi-round histories; leak sensitivity measured with R5",
+reg("C13", "exploration", "relational monitor: reused authorizer after Reset vs fresh authorizer, over multi-round histories; leak sensitivity measured with R5; outcome also held against R5 (process-wide leaks hit the fresh authorizer too); error text compared",
     "Each round of a 2-6 round history is replayed on a fresh authorizer; class and query answers must agree; the number of rounds where a leak would be visible is measured.",
     "Large limits.",
     "DESIGN.md 3/C13")
@@ -62,7 +62,7 @@ reg("C17", "exploration", "provenance monitor: case-wide identifier <-> signing-
     "Histories with only three block contents under one root; every identifier is tied to the signing event that created its block and checked for stability, uniqueness, prefix inheritance and equality with the signature on the wire.",
     "Seeded stream does not repeat 32-byte windows.",
     "DESIGN.md 3/C17")
-reg("C11", "exploration", "reference fixpoint vs limit sentinels over limit grids; duration sentinel; entry-point option checks; goroutine-profile quiescence monitor with delay hooks",
+reg("C11", "exploration", "reference fixpoint vs limit sentinels over limit grids; duration sentinel; entry-point option checks; goroutine-profile quiescence monitor with delay hooks; logical-step oracle for the deadline (hook combine.step); limits after LoadPolicies / Reset and in rule-less blocks",
     "No run cut short by a limit may look like success; every entry point must honour options; after every outcome kind (27 shapes + authorizer-level) the goroutine profile must show no goroutine of the call parked forever.",
     "Quiescence restated as: parked on a private channel for 5 consecutive polls; duration verdict has 10 s slack.",
     "DESIGN.md 3/C11")
@@ -74,7 +74,7 @@ reg("C15", "exploration", "round-trip monitor parse -> build -> print -> parse a
     "Grammar-generated blocks in the printable domain are built into tokens at positions 0-3, printed and parsed back; the second parse must equal the first; String()/Code() must not panic and be identical before and after serialization.",
     "The first parse is the reference.",
     "DESIGN.md 3/C15")
-reg("C19", "exploration", "Go race detector over a shared-token stress workload + constant-state sequential model",
+reg("C19", "exploration", "Go race detector over a shared-token stress workload + constant-state sequential model computed before or after the concurrent phase; one option value and unsorted parsed values shared by all goroutines; refused sealed copies and limit errors among the operations",
     "All cases run in the -race build: 2-16 goroutines share one token (built / re-loaded / sealed), a parser instance and parsed values; race reports are collected from the race log; every concurrent result must equal the same call made alone; evidence lists which operation pairs really overlapped.",
     "Only races between accesses executed in the same run are visible; repetition counts are in the evidence.",
     "DESIGN.md 3/C19")
